@@ -107,7 +107,26 @@ def register_on_evaluate(R):
                    note='whatever the class-specific evaluation returns, the wrapper lets only non-node values through (its two assertions), for every node class'))
 
 
+def register_bunch(R):
+    """Bunch.__getattr__ (C11 'mappings become attribute-accessible dicts (cfg.a is cfg['a'])'): attribute access on the evaluated
+    mapping returns the very entry stored under that key, for EVERY key present, and fails with AttributeError exactly for the others."""
+    U = 'awesomeyaml/utils.py::'
+
+    def req(c):
+        s = c.ref('self')
+        mm = c.pre.m(s)
+        kk = z3.Const('!bk', Val)
+        return [('a-dict-object', z3.And(s > 0, mm.len >= 0, S.FA([kk], z3.And(z3.Select(mm.pos, kk) >= -1, z3.Select(mm.pos, kk) < mm.len), patterns=[z3.Select(mm.pos, kk)])))]
+
+    R.add(Contract(U + 'Bunch.__getattr__', [P.node('self', 'Bunch', exact=True), P.val('name', 'str')], requires=req, pure=True,
+                   ensures=[('C11.attribute-access-returns-the-entry-of-that-key', lambda c: z3.And(c.pre.m(c.ref('self')).has(c['name']), c.rt == c.pre.m(c.ref('self')).get(c['name'])))],
+                   raises=[Raises('AttributeError', when=lambda c: z3.Not(c.pre.m(c.ref('self')).has(c['name'])), exact=True, name='C11.AttributeError-iff-no-such-key')],
+                   result=P.val('result', 'any'), props=('C11',), opts={'no_search': True},
+                   note='the evaluated form of every mapping node is a Bunch (ConfigDict.on_evaluate_impl); a key is reachable as an attribute whatever its spelling'))
+
+
 def _reg_all(R):
     register(R)
     register_init(R)
     register_on_evaluate(R)
+    register_bunch(R)
